@@ -77,6 +77,20 @@ def step_rules(chk):
            "each of the three error sums is sum(|deviation| ** pow): the power is applied per sample", len(sums) == 3 and len(inside) == 3 and
            not pows_outside, derived="%d abs-sums, %d with `** pow` inside, %d raised to a power as a whole" % (len(sums), len(inside), len(pows_outside)),
            loc=fi.loc(pows_outside[0]) if pows_outside else fi.loc())
+    # each |.| is taken of a DEVIATION from a mean: (samples) - (their mean); a sum |x + mean| is not an error of fit
+    env_ = straightline_env(fi.node.body, Normaliser(), exclude=set(fi.params))
+    for s_ in sums:
+        for x in ast.walk(s_.args[0]):
+            if isinstance(x, ast.Call) and ast.unparse(x.func).split(".")[-1] in ("abs", "absolute") and x.args and isinstance(x.args[0], ast.BinOp) and \
+                    isinstance(x.args[0].op, (ast.Sub, ast.Add)):
+                bo = x.args[0]
+                means_right = any(isinstance(y, ast.Call) and ast.unparse(y.func).split(".")[-1] in ("mean", "sum") for y in ast.walk(bo.right)) or \
+                    (isinstance(bo.right, (ast.Name, ast.Subscript)) and "mean" in ast.unparse(bo.right))
+                if means_right:
+                    chk.ob("R-STEP-PARITY", "eqsig/fns/average.py:calc_step_fn_vals_error{deviation `%s`}" % norm_stmt(bo),
+                           "the absolute value is taken of samples MINUS their mean", isinstance(bo.op, ast.Sub), derived=norm_stmt(bo), loc=fi.loc(bo),
+                           stmt=norm_stmt(bo))
+                break
     q2 = AV_ + "calc_step_fn_steps_vals"
     r = analyse(chk, q2, lambda I, st, fi: dict(values=rec_array("values"), ind=int_scalar("ind", "k")))
     c = "eqsig/fns/average.py:calc_step_fn_steps_vals"
@@ -173,7 +187,7 @@ def roll_rules(chk):
                     chk.ob("R-ROLL", c + "{padding}", "%s: pads %s the record with steps-1 edge values" % (mode, "after" if mode == "forward" else "before"),
                            lens == want, derived="part lengths %s" % lens, loc=cc[0].loc)
                 else:
-                    ok = len(lens) == 3 and lens[1] == "n" and lens[0].startswith(("int[", "floor[")) and "S" in lens[0]
+                    ok = len(lens) == 3 and lens[1] == "n" and lens[0].startswith(("int[", "floor[")) and "div[S,2]" in lens[0]      # HALF the steps
                     tot = None
                     try:
                         tot = parts[0].length() + parts[2].length()
@@ -453,6 +467,7 @@ def left_rules(chk):
     r2 = analyse(chk, q, lambda I, st, fi: dict(x0=AV(kind=K_SCALAR, dtype="real", shape=(), origin=frozenset(["lit"]), tags=frozenset(["p:x0"]), const=0.5),
                                                 x=xs(), y=AV(kind=K_ARRAY, dtype="real", shape=(LinExpr("X"),), origin=frozenset(["p:y"]), tags=frozenset(["p:y"]))))
     expect(chk, "R-LEFT", c + "(scalar query).result", r2.ret, kind=K_SCALAR, tags_has=["p:y"], loc=fi.loc())
+    unmodelled_in(r2, chk, "R-LEFT", c + "(scalar query)")
 
 
 # ---------------------------------------------------------------------------------------------------------------------
@@ -556,6 +571,9 @@ def nzs_rules(chk):
                                                                           tags=frozenset(["p:period"]), note="pyscalar"), site_class=const_av("C")))
     chk.ob("R-NZS-SIB", c + ":c_h_factor(one float period)", "one float period gives one factor", not deco and r_.ret.kind == K_SCALAR,
            derived="kind %s" % r_.ret.kind, loc=ch.loc(), inconclusive=deco or r_.ret.indef)
+    te_ = [e for e in r_.I.events if e.kind in ("type-error", "index-error")]
+    chk.ob("R-NZS-SIB", c + ":c_h_factor(one float period){types}", "no ill-typed operation or index past the end on the way", not te_,
+           derived="; ".join("%s %s" % (e.loc, e.what) for e in te_[:2]) or "none", loc=te_[0].loc if te_ else ch.loc())
     T2 = Poly.atom("T") * Poly.atom("T")
     ren = lambda a: re.sub(r"\b(tt|period)\b", "T", a)
     for cls in sorted(set(tch) & set(tsd)):
